@@ -33,6 +33,9 @@ CLAIMED = {
     "C20": dict(level="model_checking", ref="4/C20", technique="TLA+ trace validation (SolveTrace!DualProblems: exact re-solving of right-hand-side perturbations by Fourier-Motzkin) of Clarabel's reported shadow prices on TLC-generated named-row LPs",
                 text="For every named row whose exact optimum is differentiable in its right-hand side (equal secant slopes over +-1/8, decided by the FM oracle) the reported dual must equal that slope in the user's objective sense; duals only for named rows, exactly one each.",
                 note="duals snapped to small rationals within 1e-6; rows with non-unique sensitivities are outside the property and not judged"),
+    "C15": dict(level="exploration", ref="4/C15", technique="TLA+ trace validation (SolveTrace!LimitsProblems: allowed returns of Call(model, gap, limit), exact optimum by enumeration) of solve_milp_lp_problem_with / builder Microlp under sampled time limits and gaps",
+                text="The set of allowed returns of a call with a gap and a time limit is stated in TLA+ (internal search steps and the timer are existentially quantified); every observed return of the real solver on TLC-generated knapsack and small MILP models must be allowed. Wall-clock firing points are sampled (limits from 0 to 5 ms), not enumerated.",
+                note="timing-dependent paths are sampled; the exact optimum comes from 2^n enumeration inside TLC"),
 }
 NOT_YET = {}
 ALL = [f"C{i:02d}" for i in range(1, 21)]
